@@ -56,7 +56,23 @@ func stdTree(w []byte) (v interface{}, p int, ok bool) {
 	return normTree(v), int(dec.InputOffset()), true
 }
 
-var treeCollisions int64
+var treeCollisions, stdLongNumberSkips int64
+
+// hasLongNumber reports whether w contains a run of more than 700 number-literal bytes.
+func hasLongNumber(w []byte) bool {
+	run := 0
+	for _, c := range w {
+		if (c >= '0' && c <= '9') || c == '.' || c == 'e' || c == 'E' || c == '-' || c == '+' {
+			run++
+			if run > 700 {
+				return true
+			}
+		} else {
+			run = 0
+		}
+	}
+	return false
+}
 
 // checkTree compares ReadValue / ReadObject / ReadArray (package-level and method forms on a
 // fresh reader) with the reference decoder, and the reference with encoding/json.
@@ -71,7 +87,13 @@ func checkTree(w []byte, _ *ref.PDA) (string, bool, string, string) {
 		if collide {
 			atomic.AddInt64(&treeCollisions, 1)
 		} else if !ref.SameTree(san, sv) {
-			return "reference-tree!=encoding/json", true, treeStr(sv), treeStr(san)
+			if hasLongNumber(w) {
+				// strconv (and so encoding/json) misplaces the decimal point of literals with more than
+				// 800 integer digits (DESIGN 11.3 #1); the reference uses exact rounding there
+				atomic.AddInt64(&stdLongNumberSkips, 1)
+			} else {
+				return "reference-tree!=encoding/json", true, treeStr(sv), treeStr(san)
+			}
 		}
 	}
 	type res struct {
@@ -259,10 +281,35 @@ func c03(r *eng.Run) {
 			one(strings.ReplaceAll(shape, "%s", num), "number-range")
 		}
 	}
+	// the shared hard-number and hard-string pools in every value position
+	hn := hardNumbers()
+	eng.Parallel(len(hn), func(i int) {
+		for _, shape := range []string{"%s", " [%s]", `{"a":%s}`, `[1,%s ,2]`, `{"a":[%s],"b":%s}`} {
+			one(strings.ReplaceAll(shape, "%s", hn[i]), "hard-numbers")
+		}
+	})
+	hs := hardStrings()
+	eng.Parallel(len(hs), func(i int) {
+		for _, shape := range []string{"%s", "[%s]", `{"a":%s}`, `{%s:1}`, `[%s,%s]`, `{%s:%s}`} {
+			one(strings.ReplaceAll(shape, "%s", hs[i]), "hard-strings")
+		}
+	})
+	r.Set("hard_numbers", len(hn))
+	r.Set("hard_strings", len(hs))
+	// long string values with an escape (size hints, capped reservations): 60..200 KiB round the
+	// allocator's size classes, escape first / in the middle / last
+	for _, L := range []int{60000, 65535, 65536, 65537, 73727, 73728, 73729, 80000, 131072, 200000} {
+		x := strings.Repeat("x", L)
+		for _, body := range []string{"\\n" + x, x[:L/2] + "\\t" + x[L/2:], x + "\\u00e9", "\\\"" + x + "\\n"} {
+			one(`["`+body+`"]`, "long-escaped-string")
+			one(`{"k":"`+body+`","z":1}`, "long-escaped-string")
+		}
+	}
 	r.Add("evaluations", int(evals))
 	r.Set("e2_documents", int(evals))
 	r.Set("e2_deep_family", deep)
 	r.Set("key_collisions_after_sanitising", int(atomic.LoadInt64(&treeCollisions)))
+	r.Set("stdlib_tree_comparisons_skipped_for_literals_over_700_bytes", int(atomic.LoadInt64(&stdLongNumberSkips)))
 	r.Set("rule", e1Rule+" For C03 the configuration is the first end-of-input event in the stack of nested machine invocations of the recursive ValueReader. E2: every JSON text with <= N value nodes over a leaf menu (all scalar kinds, escapes, multi-byte and invalid UTF-8) and a key menu (duplicates by escape, empty, lone surrogate, invalid UTF-8) in three whitespace styles, all distance-1 corruptions of the smaller texts, deep families at 9999..10001, float-range numbers in every position. Oracle: byte-preserving reference decoder (exact tree equality, floats by bit pattern), itself compared with encoding/json after UTF-8 sanitising.")
 	r.Sample(map[string]interface{}{"kind": "doc", "text": `{"a":[1.5,"\n"],"\u0061":{"":null}}`, "note": "escaped duplicate key after a nested array"})
 	r.Assume("trees are bounded by N nodes and the menus; nesting bound D in the BFS")
